@@ -213,6 +213,59 @@ func c08Case(c *Ctx) {
 			det["entropy"] = fmt.Sprint(math.Float32frombits(first[k]))
 			c.Sample(det)
 		}
+		// recipes that share one *WordList and differ in separator function / length / scheme, evaluated in
+		// both orders: each must still report its own formula value (nothing remembered on the list)
+		if okIn[k] {
+			type variant struct {
+				name   string
+				sf     spg.SFFunction
+				sepEnt float64
+				L      int
+				scheme string
+			}
+			vs := []variant{
+				{"SFDigits1", spg.SFDigits1, math.Log2(10), w.Length, w.Scheme},
+				{"SFDigits2", spg.SFDigits2, 2 * math.Log2(10), w.Length, w.Scheme},
+				{"SFSymbols", spg.SFSymbols, math.Log2(6), w.Length, w.Scheme},
+				{"SFNone", spg.SFNone, 0, w.Length, w.Scheme},
+				{"SFDigits1/other scheme", spg.SFDigits1, math.Log2(10), w.Length, schemes[(c.R.Intn(4)+1+indexOf(schemes, w.Scheme))%5]},
+				{"no separator function", nil, 0, w.Length + 1, w.Scheme},
+			}
+			for order := 0; order < 2; order++ {
+				wl, err := spg.NewWordList(w.Words)
+				if err != nil {
+					break
+				}
+				idx := c.R.Perm(len(vs))
+				for _, vi := range idx {
+					v := vs[vi]
+					rec := spg.NewWLRecipe(v.L, wl)
+					rec.Capitalize = spg.CapScheme(v.scheme)
+					rec.SeparatorFunc = v.sf
+					got := float64(rec.Entropy())
+					c.Exec(1)
+					c.Count("shared_list_evaluations", 1)
+					L := float64(v.L)
+					wantV := L * math.Log2(float64(len(kept)))
+					if oracle.AllCapitalizable(kept) {
+						switch v.scheme {
+						case "random":
+							wantV += L
+						case "one":
+							wantV += math.Log2(L)
+						}
+					}
+					wantV += (L - 1) * v.sepEnt
+					tol := 4*oracle.Ulp32(math.Max(math.Abs(wantV), 1)) + 1e-5
+					if math.IsNaN(got) || math.Abs(got-wantV) > tol {
+						c.Violate("entropy-depends-on-other-recipes-of-the-list", fmt.Sprintf("words %q: recipe (Length %d, %s, %s) sharing its *WordList with other recipes reports %v, formula gives %.6f", w.Words, v.L, v.scheme, v.name, got, wantV),
+							map[string]interface{}{"words": w.Words, "length": v.L, "scheme": v.scheme, "separator": v.name, "evaluation_order": idx})
+						okIn[k] = false
+						break
+					}
+				}
+			}
+		}
 	}
 	// the same inputs in 4 fresh processes
 	self, err := os.Executable()
@@ -244,6 +297,15 @@ func c08Case(c *Ctx) {
 			}
 		}
 	}
+}
+
+func indexOf(ss []string, v string) int {
+	for i, s := range ss {
+		if s == v {
+			return i
+		}
+	}
+	return 0
 }
 
 func distinctOf(ss []string) map[string]bool {
